@@ -30,6 +30,7 @@ def step (line : String) : String :=
   | "tcwd" :: args => opTcWd args
   | "dcwd" :: args => opDcWd args
   | "effective" :: args => opEffective args
+  | "effectiveflags" :: args => opEffectiveFlags args
   | "namer" :: args => opNamer args
   | "envrun" :: args => opEnvRun args
   | "envapi" :: args => opEnvApi args
